@@ -538,18 +538,39 @@ func TestC28(t *testing.T) {
 			rec.Class("reference_fails")
 		}
 
-		// (a) the rules that implement the statement
-		errSig := rules.sig(ltx, c.Slot, st, pp)
-		errReq := rules.req(ltx, c.Slot, st, pp)
-		var errColl error
-		if rules.coll != nil {
-			errColl = rules.coll(ltx, c.Slot, st, pp)
+		// runRules: (a) the rules that implement the statement, (b) the complete rule list
+		ruleNames := []string{era.String() + ".UtxoValidateSignatures", era.String() + ".UtxoValidateRequiredVKeyWitnesses",
+			era.String() + ".UtxoValidateCollateralVKeyWitnesses", "VerifyTransaction(" + era.String() + ".UtxoValidationRules)"}
+		runRules := func(t common.Transaction, s *State, p common.ProtocolParameters) []error {
+			errs := make([]error, 4)
+			errs[0] = rules.sig(t, c.Slot, s, p)
+			errs[1] = rules.req(t, c.Slot, s, p)
+			if rules.coll != nil {
+				errs[2] = rules.coll(t, c.Slot, s, p)
+			}
+			errs[3] = common.VerifyTransaction(t, c.Slot, s, p, rulesFor(era))
+			return errs
 		}
+		pfail := func(key, what string) bool { return rec.Fail(rt, key, what, c.sample(raw)) }
+
+		// transaction B for the history check: A's witnesses under another body, or
+		// A's signatures under other vkeys. It is validated FRESH first (own decoded
+		// object, own state, own parameters), before A was ever validated.
+		b := c.variantB(rt, body)
+		var bFresh []string
+		var ltxB common.Transaction
+		if b != nil {
+			if t0, err := decodeTx(era, b.raw); err == nil {
+				bFresh = verdictsOf(runRules(t0, c.state(), defaultParams(era).forEra(era)))
+				ltxB, _ = decodeTx(era, b.raw)
+			}
+		}
+
+		// A: twice on the same object (purity + repeatability)
+		errsA := pureRun(pfail, "C28", era.String(), ltx, ruleNames, func() []error { return runRules(ltx, st, pp) })
+		errSig, errReq, errColl, errFull := errsA[0], errsA[1], errsA[2], errsA[3]
 		accept := errSig == nil && errReq == nil && errColl == nil
-		rec.Eval()
-		// (b) the complete rule list
-		errFull := common.VerifyTransaction(ltx, c.Slot, st, pp, rulesFor(era))
-		rec.Eval()
+		rec.EvalN(2)
 
 		nontrivial := len(c.Faults) > 0 || len(tx.Coll) > 0 || len(tx.ReqSign) > 0
 		for _, in := range tx.Ins {
@@ -561,7 +582,9 @@ func TestC28(t *testing.T) {
 			rec.NonTrivial(fmt.Sprintf("%s %x", era, hash256(raw)), c.sample(raw))
 		}
 
-		judge := func(entry string) {
+		var judgeOn func(entry string, tx *TxSpec, ref *c28Ref, raw []byte)
+		judge := func(entry string) { judgeOn(entry, tx, ref, raw) }
+		judgeOn = func(entry string, tx *TxSpec, ref *c28Ref, raw []byte) {
 			cs := c.sample(raw)
 			cs["entry"] = entry
 			cs["reference"] = ref
@@ -616,5 +639,90 @@ func TestC28(t *testing.T) {
 				rec.Class("over_reject_full:" + errClass(errFull))
 			}
 		}
+
+		// ---- history: A, then B, then A again on the same state / parameter objects -------
+		if ltxB != nil {
+			rec.Class("history_B_" + b.kind)
+			errsB := runRules(ltxB, st, pp)
+			rec.Eval()
+			vB := verdictsOf(errsB)
+			for i := range vB {
+				if vB[i] != bFresh[i] {
+					rec.Fail(rt, "C28:"+era.String()+":verdict-depends-on-history",
+						fmt.Sprintf("%s of transaction B (%s): %s on a fresh setup, %s after transaction A was validated on the same state/parameters", ruleNames[i], b.kind, bFresh[i], vB[i]),
+						map[string]any{"tx_a": evi.Hex(raw), "tx_b": evi.Hex(b.raw), "kind": b.kind})
+				}
+			}
+			if !b.ref.ok() {
+				if errsB[0] == nil && errsB[1] == nil && errsB[2] == nil {
+					judgeOn("signature+required-signer+collateral rules (transaction B="+b.kind+", validated after A)", b.spec, b.ref, b.raw)
+				}
+				if errsB[3] == nil {
+					judgeOn("VerifyTransaction (transaction B="+b.kind+", validated after A)", b.spec, b.ref, b.raw)
+				}
+			}
+			vA1 := verdictsOf(errsA)
+			vA3 := verdictsOf(runRules(ltx, st, pp))
+			rec.Eval()
+			for i := range vA1 {
+				if vA1[i] != vA3[i] {
+					rec.Fail(rt, "C28:"+era.String()+":verdict-depends-on-history",
+						fmt.Sprintf("%s of transaction A: %s at first, %s after transaction B (%s) was validated in between", ruleNames[i], vA1[i], vA3[i], b.kind),
+						map[string]any{"tx_a": evi.Hex(raw), "tx_b": evi.Hex(b.raw), "kind": b.kind})
+				}
+			}
+		}
 	})
+}
+
+// c28B is the second transaction of the history check.
+type c28B struct {
+	kind string
+	spec *TxSpec
+	raw  []byte
+	ref  *c28Ref
+}
+
+// variantB derives transaction B from A: either a different body (fee + 1) that
+// carries A's witnesses unchanged, or A's body with A's signatures attached to
+// other verification keys.
+func (c *c28Case) variantB(rt *rapid.T, bodyA []byte) *c28B {
+	a := c.Tx
+	if len(a.VKeys)+len(a.Boots) == 0 {
+		return nil
+	}
+	bs := *a
+	bs.BodyStyle, bs.WitStyle = nil, nil
+	bs.VKeys = append([]VKeyWit(nil), a.VKeys...)
+	bs.Boots = append([]BootWit(nil), a.Boots...)
+	b := &c28B{spec: &bs}
+	var body []byte
+	if len(a.VKeys) == 0 || rapid.Bool().Draw(rt, "historyTransplant") {
+		b.kind = "witnesses-of-A-under-another-body"
+		bs.Fee = a.Fee + 1
+		body = bs.BodyBytes()
+		for i := range bs.VKeys {
+			bs.VKeys[i].Note = "transplanted-from-A:" + bs.VKeys[i].Note
+		}
+		for i := range bs.Boots {
+			bs.Boots[i].Note = "transplanted-from-A:" + bs.Boots[i].Note
+		}
+	} else {
+		b.kind = "signatures-of-A-under-other-vkeys"
+		body = bodyA
+		n := len(bs.VKeys)
+		for i := range bs.VKeys {
+			other := a.VKeys[(i+1)%n].VKey
+			if n == 1 || string(other) == string(a.VKeys[i].VKey) {
+				other = keys[c28Unrelated].pub
+				if string(other) == string(a.VKeys[i].VKey) {
+					other = keys[payerKey].pub
+				}
+			}
+			bs.VKeys[i] = VKeyWit{VKey: append([]byte{}, other...), Sig: a.VKeys[i].Sig, Note: "signature-of-A-under-other-vkey"}
+		}
+	}
+	b.raw, _ = bs.Assemble(body)
+	b.ref = c28Reference(&bs, body)
+	return b
 }
